@@ -18,21 +18,26 @@ import (
 	"encoding/binary"
 )
 
-func (s *Segment) getDocStoredMetaAndUnCompressed(docNum uint64) (meta, data []byte, err error) {
-	_, storedOffset, n, metaLen, dataLen, err := s.getDocStoredOffsets(docNum)
+// getDocStoredMetaAndUnCompressed decompresses the block holding docNum into
+// buf (a scratch buffer owned by the caller, so that concurrent and nested
+// visits of one segment never share it) and returns the block together with
+// the document's meta and data sections inside it.
+func (s *Segment) getDocStoredMetaAndUnCompressed(buf []byte, docNum uint64) (block, meta, data []byte, err error) {
+	_, storedOffset, n, metaLen, dataLen, block, err := s.getDocStoredOffsets(buf, docNum)
 	if err != nil {
-		return nil, nil, err
+		return nil, nil, nil, err
 	}
 
-	meta = s.storedFieldChunkUncompressed[int(storedOffset+n):int(storedOffset+n+metaLen)]
-	data = s.storedFieldChunkUncompressed[int(storedOffset+n+metaLen):int(storedOffset+n+metaLen+dataLen)]
-	return meta, data, nil
+	meta = block[int(storedOffset+n):int(storedOffset+n+metaLen)]
+	data = block[int(storedOffset+n+metaLen):int(storedOffset+n+metaLen+dataLen)]
+	return block, meta, data, nil
 }
 
-func (s *Segment) getDocStoredOffsets(docNum uint64) (indexOffset, storedOffset, n, metaLen, dataLen uint64, err error) {
+func (s *Segment) getDocStoredOffsets(buf []byte, docNum uint64) (indexOffset, storedOffset, n, metaLen, dataLen uint64,
+	uncompressed []byte, err error) {
 	indexOffset, storedOffset, err = s.getDocStoredOffsetsOnly(docNum)
 	if err != nil {
-		return 0, 0, 0, 0, 0, err
+		return 0, 0, 0, 0, 0, nil, err
 	}
 
 	// document chunk coder
@@ -41,22 +46,21 @@ func (s *Segment) getDocStoredOffsets(docNum uint64) (indexOffset, storedOffset,
 	chunkOffsetEnd := s.storedFieldChunkOffsets[int(chunkI)+1]
 	compressed, err := s.data.Read(int(chunkOffsetStart), int(chunkOffsetEnd))
 	if err != nil {
-		return 0, 0, 0, 0, 0, err
+		return 0, 0, 0, 0, 0, nil, err
 	}
-	s.storedFieldChunkUncompressed = s.storedFieldChunkUncompressed[:0]
-	s.storedFieldChunkUncompressed, err = ZSTDDecompress(s.storedFieldChunkUncompressed[:cap(s.storedFieldChunkUncompressed)], compressed)
+	uncompressed, err = ZSTDDecompress(buf[:cap(buf)], compressed)
 	if err != nil {
-		return 0, 0, 0, 0, 0, err
+		return 0, 0, 0, 0, 0, nil, err
 	}
 
 	// the length prefixes are read with a fixed look-ahead, which must not
 	// reach past the end of the block for a short record at its end
-	blockEnd := uint64(len(s.storedFieldChunkUncompressed))
+	blockEnd := uint64(len(uncompressed))
 	metaLenEnd := storedOffset + binary.MaxVarintLen64
 	if metaLenEnd > blockEnd {
 		metaLenEnd = blockEnd
 	}
-	metaLenData := s.storedFieldChunkUncompressed[int(storedOffset):int(metaLenEnd)]
+	metaLenData := uncompressed[int(storedOffset):int(metaLenEnd)]
 	var read int
 	metaLen, read = binary.Uvarint(metaLenData)
 	n += uint64(read)
@@ -65,11 +69,11 @@ func (s *Segment) getDocStoredOffsets(docNum uint64) (indexOffset, storedOffset,
 	if dataLenEnd > blockEnd {
 		dataLenEnd = blockEnd
 	}
-	dataLenData := s.storedFieldChunkUncompressed[int(storedOffset+n):int(dataLenEnd)]
+	dataLenData := uncompressed[int(storedOffset+n):int(dataLenEnd)]
 	dataLen, read = binary.Uvarint(dataLenData)
 	n += uint64(read)
 
-	return indexOffset, storedOffset, n, metaLen, dataLen, nil
+	return indexOffset, storedOffset, n, metaLen, dataLen, uncompressed, nil
 }
 
 func (s *Segment) getDocStoredOffsetsOnly(docNum uint64) (indexOffset, storedOffset uint64, err error) {
